@@ -35,6 +35,7 @@ package bfe_tls
 //@   arith bv
 //@   nopanic
 //@   requires m != nil
+//@   modifies *
 //@   loop 4 invariant[curve_bytes_left] 0 <= i && len(d) >= 2*(numCurves - i)
 //@   loop 5 invariant[sig_hash_bytes_left] len(d) >= 2*(n - (rangeindex + 1)) && n >= 0 && n <= 32768
 
@@ -43,48 +44,56 @@ package bfe_tls
 //@   arith bv
 //@   nopanic
 //@   requires m != nil
+//@   modifies *
 
 //@ func (*serverKeyExchangeMsg).unmarshal
 //@   props C45
 //@   arith bv
 //@   nopanic
 //@   requires m != nil
+//@   modifies *
 
 //@ func (*certificateStatusMsg).unmarshal
 //@   props C45
 //@   arith bv
 //@   nopanic
 //@   requires m != nil
+//@   modifies *
 
 //@ func (*serverHelloDoneMsg).unmarshal
 //@   props C45
 //@   arith bv
 //@   nopanic
 //@   requires m != nil
+//@   modifies *
 
 //@ func (*clientKeyExchangeMsg).unmarshal
 //@   props C45
 //@   arith bv
 //@   nopanic
 //@   requires m != nil
+//@   modifies *
 
 //@ func (*finishedMsg).unmarshal
 //@   props C45
 //@   arith bv
 //@   nopanic
 //@   requires m != nil
+//@   modifies *
 
 //@ func (*nextProtoMsg).unmarshal
 //@   props C45
 //@   arith bv
 //@   nopanic
 //@   requires m != nil
+//@   modifies *
 
 //@ func (*certificateRequestMsg).unmarshal
 //@   props C45
 //@   arith bv
 //@   nopanic
 //@   requires m != nil
+//@   modifies *
 //@   loop 1 invariant[sig_hash_bytes_left] len(data) >= 2*(int(numSigAndHash) - (rangeindex + 1))
 
 //@ func (*certificateVerifyMsg).unmarshal
@@ -92,15 +101,96 @@ package bfe_tls
 //@   arith bv
 //@   nopanic
 //@   requires m != nil
+//@   modifies *
 
 //@ func (*newSessionTicketMsg).unmarshal
 //@   props C45
 //@   arith bv
 //@   nopanic
 //@   requires m != nil
+//@   modifies *
 
 //@ func (*sessionState).unmarshal
 //@   props C45,C44
 //@   arith bv
 //@   nopanic
 //@   requires s != nil
+//@   modifies *s
+
+//@ package_invariant[cipher_suite_table_has_no_nil_entry] forall k int :: 0 <= k && k < len(cipherSuites) ==> cipherSuites[k] != nil
+
+//@ func (*Config).minVersion
+//@   props C41
+//@   nopanic
+//@   modifies nothing
+//@   ensures result0 == (c == nil || c.MinVersion == 0 ? 768 : c.MinVersion)
+
+//@ func (*Config).maxVersion
+//@   props C41
+//@   nopanic
+//@   modifies nothing
+//@   ensures result0 == (c == nil || c.MaxVersion == 0 ? 771 : c.MaxVersion)
+
+//@ func (*Config).mutualVersion
+//@   props C41,C44
+//@   nopanic
+//@   modifies nothing
+//@   let lo := (c == nil || c.MinVersion == 0 ? 768 : c.MinVersion)
+//@   let hi := (c == nil || c.MaxVersion == 0 ? 771 : c.MaxVersion)
+//@   ensures[refused_below_minimum] result1 <==> vers >= lo
+//@   ensures[never_above_peer_or_maximum] result1 ==> result0 <= vers && result0 <= hi && (vers <= hi ==> result0 == vers) && (vers > hi ==> result0 == hi)
+
+//@ func checkCipherSuiteHttp2Accepted
+//@   props C44
+//@   nopanic
+//@   modifies nothing
+
+//@ func (*Conn).tryCipherSuite
+//@   props C41,C44
+//@   nopanic
+//@   requires c != nil
+//@   modifies nothing
+//@   ensures[chosen_suite_is_the_requested_id_and_is_enabled] result0 != nil ==> result0.id == id && 0 <= result1 && result1 < len(supportedCipherSuites) && supportedCipherSuites[result1] == id
+//@   ensures[chosen_suite_is_a_table_entry] result0 != nil ==> (exists k int :: 0 <= k && k < len(cipherSuites) && cipherSuites[k] == result0)
+//@   loop 1 invariant 0 <= rangeindex + 1 && rangeindex + 1 <= len(supportedCipherSuites)
+//@   loop 2 invariant candidate == nil && 0 <= rangeindex + 1 && rangeindex + 1 <= len(cipherSuites)
+
+//@ func (*Conn).decryptTicket
+//@   props C44
+//@   nopanic
+//@   requires c != nil && c.config != nil
+//@   modifies encrypted[..]
+//@   ensures[too_short_tickets_are_refused] result1 ==> len(encrypted) >= 48 && result0 != nil
+
+//@ func (ServerSessionCache).Get
+//@   trusted abstract contract of the session cache interface: a lookup writes no TLS state
+//@   modifies nothing
+
+//@ func (*serverHandshakeState).validateHttp2Accepted
+//@   props C44
+//@   nopanic
+//@   requires hs != nil && hs.c != nil && hs.hello != nil && hs.suite != nil
+//@   modifies hs.hello.alpnProtocol, hs.c.clientProtocol
+
+//@ func (*serverHandshakeState).checkForResumption
+//@   props C44
+//@   nopanic
+//@   requires hs != nil && hs.c != nil && hs.c.config != nil && hs.clientHello != nil && hs.hello != nil
+//@   ensures[resumed_session_exists] result0 ==> hs.sessionState != nil
+//@   ensures[never_above_the_offered_version] result0 ==> hs.sessionState.vers <= hs.clientHello.vers
+//@   ensures[suite_still_offered_by_the_client] result0 ==> (exists k int :: 0 <= k && k < len(hs.clientHello.cipherSuites) && hs.clientHello.cipherSuites[k] == hs.sessionState.cipherSuite)
+//@   ensures[suite_still_supported_by_the_server] result0 ==> hs.suite != nil && hs.suite.id == hs.sessionState.cipherSuite
+//@   ensures[required_client_certificate_present] result0 && (hs.c.clientAuth == RequireAnyClientCert || hs.c.clientAuth == RequireAndVerifyClientCert) ==> len(hs.sessionState.certificates) != 0
+//@   ensures[no_client_certificate_when_not_requested] result0 && len(hs.sessionState.certificates) != 0 ==> hs.c.clientAuth != NoClientCert
+//@   loop 1 invariant !cipherSuiteOk
+
+//@ func defaultCipherSuites
+//@   trusted lazily initialised table (sync.Once); it writes only its own cache
+//@   modifies nothing
+
+//@ func (*Config).cipherSuites
+//@   props C41,C44
+//@   nopanic
+//@   requires c != nil
+//@   modifies nothing
+//@   ensures c.CipherSuites != nil ==> sameslice(result0, c.CipherSuites)
